@@ -409,8 +409,10 @@ func genState(g *GenCtx) {
 	for c := 0; c < n; c++ {
 		g.Op("new")
 		base := uint64(1000 + g.R.Intn(5)*1000)
-		if g.R.Chance(1, 10) {
-			base = uint64(1) << 33
+		if g.R.Chance(1, 5) {
+			// far from today: 2242, both sides of 2262-04-11 (where nanoseconds since 1970 leave int64),
+			// 2300, 2600, 19000
+			base = Pick(g.R, []uint64{1 << 33, 9223372036 - 250, 9223372037, 10413792000, 19880899200, 1 << 39})
 		}
 		nu, nk := 1+g.R.Intn(2), 1+g.R.Intn(3)
 		// bookkeeping only (which pairs have stored grants, which grants each session got): it
@@ -426,6 +428,9 @@ func genState(g *GenCtx) {
 				cmd:   cmds[g.R.Intn(3)],
 			}
 			gg.exp = gg.start + Pick(g.R, []uint64{0, 1, 100, 100, 1000})
+			if g.R.Chance(1, 10) {
+				gg.exp = gg.start + Pick(g.R, []uint64{1000000000, 9467107200, 12622780800}) // 30, 300, 400 years
+			}
 			if g.R.Chance(1, 12) && gg.start >= 50 {
 				gg.exp = gg.start - 50 // expires before it starts
 			}
@@ -516,6 +521,10 @@ func genState(g *GenCtx) {
 					sec = edge + uint64(g.R.Intn(3)) - 1
 					if g.R.Chance(1, 3) {
 						sec = (gg.start + gg.exp) / 2
+					}
+					if g.R.Chance(1, 8) {
+						// a clock that has nothing to do with the grant's window (long before, long after)
+						sec = Pick(g.R, []uint64{0, 1500, 1 << 31, 1 << 33, 9223372036, 9223372037, 10413792000, 19880899200, 1<<39 + 5})
 					}
 					if g.R.Chance(1, 4) {
 						nsec = Pick(g.R, []uint64{1, 500000000, 999999999})
